@@ -165,6 +165,10 @@ func reachesStatic(c *core.Ctx, fn, target *ssa.Function, depth int) bool {
 func c13Append(c *core.Ctx, r *core.Reporter) {
 	n, bad := 0, ""
 	var pos token.Pos
+	inCollect := map[*ssa.Function]bool{} // collectInto and helpers extracted from it
+	for _, g := range c.Region(c.Func("", "Plan.collectInto")) {
+		inCollect[g] = true
+	}
 	for _, fn := range c.LibFuncs() {
 		for _, w := range core.WritesIn(fn) {
 			if w.Owner == nil || core.N(w.Owner.Obj()) != "selectionPlan" || core.N(w.Field) != "fields" || w.Fresh {
@@ -185,7 +189,7 @@ func c13Append(c *core.Ctx, r *core.Reporter) {
 			if !ok || !isB || core.N(b.(*ssa.Builtin)) != "append" || !core.HasClass(call.Call.Args[0], "field:selectionPlan.fields") {
 				bad = "selectionPlan.fields is assigned something other than append(sp.fields, …) in " + core.N(fn)
 			}
-			if fnKey(fn) != "Plan.collectInto" {
+			if !inCollect[fn] {
 				bad = "selectionPlan.fields is written outside collectInto (in " + fnKey(fn) + ")"
 			}
 		}
